@@ -58,9 +58,9 @@ def b_range(I, args, kwargs):
 def b_list(I, args, kwargs):
     if not args:
         return []
-    v = I.force(args[0])
+    v = ops.sv(I.force(args[0]))
     if isinstance(v, Sym) and v.kind == "seq":
-        return v
+        return SList(v)
     return list(ops.iterate(I, v, None))
 
 
@@ -382,9 +382,38 @@ def builtin_method(I, o, name):
         return _str_method(I, o, name)
     if k == "bytes":
         return _bytes_method(I, o, name)
+    if isinstance(o, SList):
+        return _slist_method(I, o, name)
     if isinstance(o, Sym) and o.kind == "seq":
         return _seq_method(I, o, name)
     return None
+
+
+def str_join(t):
+    """join of a sequence of strings (uninterpreted; facts instantiated at append time)"""
+    return z3.Function("seq.join", z3.SeqSort(z3.StringSort()), z3.StringSort())(t)
+
+
+def _slist_method(I, o, name):
+    def append(I, a, k):
+        old = o.sym
+        x = ops.unwrap_elem(I, a[0], old.elem)
+        new = z3.Concat(old.t, z3.Unit(x))
+        o.sym = Sym(new, "seq", old.elem)
+        if old.elem == "str":
+            I.ctx.assume(str_join(new) == z3.Concat(str_join(old.t), x))
+
+    def extend(I, a, k):
+        other = ops.seq_term(I, a[0], o.sym.elem)
+        o.sym = Sym(z3.Concat(o.sym.t, other), "seq", o.sym.elem)
+
+    def copy(I, a, k):
+        return SList(o.sym)
+
+    def clear(I, a, k):
+        o.sym = Sym(z3.Empty(o.sym.t.sort()), "seq", o.sym.elem)
+    fn = locals().get(name)
+    return NativeFn("list." + name, fn) if fn else None
 
 
 def _list_method(I, o, name):
@@ -528,6 +557,11 @@ def _str_method(I, o, name):
         return v if isinstance(v, bool) else v.t
 
     def join(I, a, k):
+        src = ops.sv(I.force(a[0]))
+        if isinstance(src, Sym) and src.kind == "seq" and src.elem == "str" and o == "":
+            r = str_join(src.t)
+            I.ctx.assume(z3.Implies(z3.Length(src.t) == 0, r == z3.StringVal("")))
+            return Sym(r, "str")
         items = ops.iterate(I, a[0], None)
         parts = []
         for i, x in enumerate(items):
@@ -543,9 +577,9 @@ def _str_method(I, o, name):
         x, y = I.force(a[0]), I.force(a[1])
         if _allc(a):
             return o.replace(x, y)
-        if isinstance(x, str) and x == "":
-            raise OutsideSubset("replace of empty string")
-        return Sym(z3.ReplaceAll(mk_str(o), mk_str(x), mk_str(y)) if hasattr(z3, "ReplaceAll") else _replace_all(mk_str(o), mk_str(x), mk_str(y)), "str")
+        if isinstance(x, str) and len(x) == 1 and isinstance(y, str):
+            return charmap_apply(I, o, {x: y})
+        raise OutsideSubset("str.replace on a symbolic string with a non single-character pattern")
 
     def lower(I, a, k):
         if conc:
@@ -631,6 +665,52 @@ def _str_method(I, o, name):
     if fn is None or name.startswith("_"):
         return None
     return NativeFn("str." + name, fn)
+
+
+def charmap_fn(mapping):
+    """uninterpreted per-character substitution  s -> concat(mapping.get(c, c) for c in s); canonical name from the mapping"""
+    name = "charmap{" + ",".join(f"{k!r}:{v!r}" for k, v in sorted(mapping.items())) + "}"
+    return z3.Function(name, z3.StringSort(), z3.StringSort())
+
+
+def charmap_unfold(mapping, c, rest):
+    """defining equations for a one-character string c followed by rest (instances are supplied as hints)"""
+    f = charmap_fn(mapping)
+    img = c
+    for k, v in mapping.items():
+        img = z3.If(c == z3.StringVal(k), z3.StringVal(v), img)
+    return f(z3.Concat(c, rest)) == z3.Concat(img, f(rest))
+
+
+def charmap_nil(mapping):
+    return charmap_fn(mapping)(z3.StringVal("")) == z3.StringVal("")
+
+
+def charmap_apply(I, o, mapping):
+    """s.replace(a, b) for a single character a.  Chained replaces compose into one per-character map when no later
+    pattern occurs in an earlier replacement and no earlier pattern equals a later one (checked; else outside subset).
+    Assumed: CPython's str.replace replaces every occurrence, left to right (cross-checked natively by the bounded tier)."""
+    prev = getattr(o, "charmap", None) if isinstance(o, Sym) else None
+    if prev is not None:
+        base, m0 = prev
+        (k, v), = mapping.items()
+        if any(k in r for r in m0.values()) or k in m0:
+            raise OutsideSubset("replace chain is not a per-character map")
+        m = dict(m0)
+        m[k] = v
+    else:
+        base, m = o, dict(mapping)
+    r = Sym(charmap_fn(m)(mk_str(base)), "str")
+    r_ = SymStr(r.t, base, m)
+    return r_
+
+
+class SymStr(Sym):
+    __slots__ = ("charmap",)
+
+    def __init__(self, t, base, m):
+        super().__init__(t, "str")
+        self.charmap = (base, m)
 
 
 def format_template(I, tmpl, a, k):
